@@ -391,7 +391,8 @@ def body(run, tier):
         "true state fed back (use_estimator = False as in the script), no sensor noise, no stick input, input_mode 'velocity'",
         "position error is measured to the CURRENT commanded set-point pw_sp: input_velocity drags the set-point to within "
         "2 m of the vehicle, so launches further away settle at a displaced hover point (logged as sp)",
-        "hover set-point 10 m above the model's ground plane; mr_ref_traj (result discarded by the script) not called",
+        "two commanded hover positions (Cascade!HoverPositions: (0,0,10) and (30,-20,25) m), both >= 10 m above the model's ground "
+        "plane; 'ground_contact' (z <= 0 at any time) counts as not converging; mr_ref_traj (result discarded by the script) not called",
         "envelope constants 10 s / 25 s / 0.05 rad / 0.1 rad/s / 0.05 m from the property's wording (DESIGN.md C17)",
         "alarming domain: commanded heading psi_sp = 0 (the script's initial value), launch attitude within 60 deg of level "
         "(yaw component included); launches with a commanded heading /= 0 are run and validated too but only reported "
